@@ -580,7 +580,7 @@ def with_fact(state, fact, present):
 
 
 def mirror_cases(rng, tier):
-    n_worlds = {"quick": 18, "thorough": 150}[tier]
+    n_worlds = {"quick": 18, "thorough": 80}[tier]
     cases = []
     while n_worlds > 0:
         w, a, ty, simple = mirror_world(rng)
@@ -887,12 +887,12 @@ def run(args):
         fx, fx_skipped = fixture_cases(rng, args.tier)
         cases = corpus_cases() + handwritten_cases() + fx + generate(rng, args.tier) + exhaustive_cases(rng, {"quick": 2, "thorough": 30}[args.tier])
         cases += mirror_cases(rng, args.tier)
-        cases += sequence_cases(rng, cases, {"quick": 24, "thorough": 200}[args.tier])
+        cases += sequence_cases(rng, cases, {"quick": 24, "thorough": 100}[args.tier])
     cfg = run_impl([{"op": "core.numeric_config"}], nproc=1)[0]
     hashseeds = [0] if args.tier == "quick" else [0, 1]
     # the cases with mirrored set members run under further hash seeds (which member a set-walking renaming meets first -
     # and so whether one is lost - depends on the iteration order of the hash sets)
-    mirror_hashseeds = [1] if args.tier == "quick" else [2, 3, 4]
+    mirror_hashseeds = [1] if args.tier == "quick" else [2, 3]
     if args.replay:
         hashseeds, mirror_hashseeds = [int(data["input"].get("hashseed", 0))], []
     all_units, all_verdicts = [], ""
@@ -999,18 +999,20 @@ def run(args):
     cov["exhaustive"] = False
     cov["rule"] = ("generated typed domains (harness/pddlgen: <=4 types, constants, 2-4 predicates, <=3 functions, 1-2 actions of 0-3 parameters "
                    "with and/or/not/=/forall/comparison preconditions and add/del/assign/increase/decrease/when/forall-when effects) x one action x one "
-                   "mapping: three of the admissible kinds " + ", ".join(ADMISSIBLE_KINDS) + " and one kind outside the property's quantifier ("
-                   + ", ".join(FOREIGN_KINDS) + ": only the model has to agree there) x 2 states x <=3 type-correct calls. "
+                   "mapping: three of the admissible kinds " + ", ".join(ADMISSIBLE_KINDS) + " and one of the kinds "
+                   + ", ".join(FOREIGN_KINDS) + " (collapse, moves-constant, onto-unrenamed are outside the property's quantifier: only the model "
+                   "has to agree there; capture and capture-and-move - a parameter takes the name of a quantified variable - are judged like the "
+                   "admissible kinds since /repo eb5fde6; onto-constant is the class of the open finding D75) x 2 states x <=3 type-correct calls. "
                    "Plus the repository's own domain files (tests/**, a sample in the quick tier, all below 40 kB in the thorough tier): their "
                    "largest actions x (fresh ?param_i names, one overlapping kind), with probes along a short walk from the shipped problem where one exists. "
                    "Plus, for a few generated actions with >= 2 parameters (2 in the quick tier, 30 in the thorough tier), EVERY injective mapping of the "
                    "parameters into the parameters plus two fresh names (kind 'exhaustive': all permutations, overlaps and chains of that action). "
-                   "Plus 'mirror' worlds (18 quick / 150 thorough): an action with >= 2 parameters of one type whose operand sets and effect sets "
+                   "Plus 'mirror' worlds (18 quick / 80 thorough): an action with >= 2 parameters of one type whose operand sets and effect sets "
                    "(top-level conjunction, nested and/or, forall bodies, when- and forall-when conditions, effect lists) hold members that are images "
                    "of each other under the swap / permutation / rotation / chain / overlap that is then applied (and, as a control, under fresh names), "
                    "with probe states in which one member holds and its image does not; these cases run under further hash seeds "
                    "(hash_seeds_mirrored_cases) and a case whose observation does not change with the hash seed is not judged twice. "
-                   "Plus sequences of calls on one action (24 quick / 200 thorough): a mapping then its inverse, the same mapping two or three "
+                   "Plus sequences of calls on one action (24 quick / 100 thorough): a mapping then its inverse, the same mapping two or three "
                    "times, a second mapping chosen for the renamed action (kinds 'roundtrip:', 'twice:', 'then:', 'there-and-back-and-on:'). "
                    "Each case yields a signature unit, a text unit and (applicability, successor) units per probe. A unit is non-trivial when the "
                    "mapping moves at least one parameter, is of an admissible kind, the action/world uses an optional feature and (for probes) the "
